@@ -716,11 +716,12 @@ class Translation:
             probs = []
             end = annotate(nodes, ("Text",), probs)
             if end != ("Text",):
-                probs.append("%s: page does not end in text context" % name)
+                probs.append("page does not end in text context")
             text = "".join(self.literals(nodes)).lower()
             if "<script" in text:
                 raise TranslateError("%s: script element in a page" % name)
-            self.pages[name], self.problems[name] = nodes, probs
+            self.pages[name] = nodes
+            self.problems[name] = ["%s: %s" % (name, p) for p in probs]
 
     def cond_id(self, test):
         return self.conds.setdefault(ast.unparse(test), len(self.conds))
